@@ -141,16 +141,23 @@ class Harness:
         if snaps and idx_snap < 0:
             c.prove(False, 'cleanup deleted every snapshot', wit, {'class': 'all-snapshots-deleted'})
             return None
-        # (2) a fresh client can still retrieve everything from the newest retained snapshot (or from the first version) onward
+        # (2) a fresh client can still retrieve every version from EVERY retained snapshot (or from the first version when
+        #     there is none) onward: get_snapshot may hand out any of the snapshots in the store
         srv = w.new_server(9)[0]
-        start = idx_snap + 1 if idx_snap >= 0 else 0
-        cur = logical[start][0] if start < len(logical) else None
+        retained = []
+        for k, (p, vid, pl) in enumerate(logical):
+            hs = has_snapshot(vid)
+            if (c.branch(hs) if not isinstance(hs, bool) else hs):
+                retained.append(k)
+        start = (min(retained) + 1) if retained else 0
+        if len(retained) >= 2:
+            c.cover('two snapshots retained at the end')
         for k in range(start, len(logical)):
             r = w.run(w.f_get_child_version(srv, logical[k][0]))
             ok = r.variant == 0 and r.fields[0].variant == 1
             if not ok:
-                c.prove(False, 'after cleanup a version needed to reconstruct the latest state cannot be retrieved', wit,
-                        {'class': 'chain-broken', 'index': k, 'from_snapshot_index': idx_snap, 'result': repr(r)[:120]})
+                c.prove(False, 'after cleanup a version after a retained snapshot (needed to reconstruct the latest state from it) cannot be retrieved', wit,
+                        {'class': 'chain-broken', 'index': k, 'retained_snapshot_indices': retained, 'result': repr(r)[:120]})
                 return None
             g = r.fields[0]
             if not c.prove(z_and(val_eq(g.fields[0], logical[k][1]), val_eq(g.fields[2], logical[k][2])),
@@ -177,8 +184,8 @@ def required_covers(tier):
 
 def configs(tier):
     if tier == 'quick':
-        return [dict(name='cleanup-alone', factory=lambda: Harness(2, 1, ['none'], 1, 'qa'),
-                     bounds='chain of 1-2 versions, snapshot at any subset, 0-1 orphan (child of latest / of an older version), symbolic object ages; a single cleanup, optionally stopped before its first deletion'),
+        return [dict(name='cleanup-alone', factory=lambda: Harness(2, 1, ['none'], 2, 'qa'),
+                     bounds='chain of 1-2 versions, snapshot at any subset, 0-1 orphan (child of latest / of an older version), symbolic object ages; a single cleanup, optionally stopped after 0 or 1 deletions'),
                 dict(name='cleanup-vs-1', factory=lambda: Harness(2, 0, ['add_version', 'cleanup'], 0, 'q'),
                      bounds='chain of 1-2 versions, snapshot at any subset, symbolic object ages; cleanup on client A interleaved at every Service request with client B doing add_version / cleanup')]
     return [dict(name='cleanup-vs-1-all', factory=lambda: Harness(2, 1, ['none', 'add_version', 'add_snapshot', 'cleanup'], 2, 't'),
